@@ -89,6 +89,8 @@ func (t *TypeExpr) String() string {
 		return t.Kind + "[" + t.Elem.String() + "]"
 	case "chan":
 		return "chan " + t.Elem.String()
+	case "array":
+		return "[" + t.Name + "]" + t.Elem.String()
 	}
 	if t.Pkg != "" {
 		return t.Pkg + "." + t.Name
@@ -357,6 +359,11 @@ func (p *parser) parseType() *TypeExpr {
 		return &TypeExpr{Kind: "ptr", Elem: p.parseType()}
 	case t.kind == "op" && t.text == "[":
 		p.next()
+		if p.peek().kind == "int" { // [N]T
+			n := p.next().text
+			p.expect("]")
+			return &TypeExpr{Kind: "array", Name: n, Elem: p.parseType()}
+		}
 		p.expect("]")
 		return &TypeExpr{Kind: "slice", Elem: p.parseType()}
 	case t.kind == "op" && t.text == "...":
@@ -615,6 +622,7 @@ type FuncContract struct {
 	Pure        bool // no heap effect at all
 	NoSafety    bool // the zero-annotation safety sweep is not claimed for this function
 	Opaque      bool // trusted contract whose body is never examined (not even for its write/allocation summary)
+	NoSplit     bool // join blocks are merged instead of executed once per incoming edge (fewer, larger obligations)
 	HavocAll    bool // "modifies everything": the callee may change any real heap location (ghost state is kept)
 	RecvName    string
 	ParamNames  []string // including receiver first, if any
@@ -700,7 +708,7 @@ var declKeywords = map[string]bool{
 	"import": true, "ghost": true, "pure": true, "axiom": true, "func": true, "extern": true,
 	"requires": true, "ensures": true, "modifies": true, "allocates": true, "loop": true, "invariant": true,
 	"inline": true, "trusted": true, "monitor": true, "guards": true, "atomics": true, "heappure": true,
-	"iterates": true, "nomod": true, "ghostset": true, "iface": true, "iter": true, "callsvia": true, "fparam": true, "endfparam": true, "nosafety": true, "opaque": true,
+	"iterates": true, "nomod": true, "ghostset": true, "iface": true, "iter": true, "callsvia": true, "fparam": true, "endfparam": true, "nosafety": true, "opaque": true, "nosplit": true,
 }
 
 // logicalLines extracts //@ lines and joins continuation lines (those not starting with a keyword).
@@ -1088,6 +1096,10 @@ func ParseContractFile(path, pkgPath, text string) (*ContractFile, error) {
 		case "trusted":
 			if cur != nil {
 				cur.Trusted = true
+			}
+		case "nosplit":
+			if cur != nil {
+				cur.NoSplit = true
 			}
 		case "opaque":
 			if cur != nil {
